@@ -3,18 +3,19 @@ GL_ALL = ('contracts.grouped_list', None)
 
 FCM = ('contracts.qualitative', None)
 TRANSFORM = ('contracts.transform', None)
+VIAB = ('contracts.viability', None)
 ENUM = ('contracts.base_carver', ['combinations_at_index', 'consecutive_combinations', 'consecutive_combinations@top', 'nan_combinations', 'order_apply_combination'])
 
 REGISTRY = {
- 'C01': dict(level='other', P=[ENUM, ('contracts.measures', ['BinaryCarver._association_measure'])], R=['rtc.c01_carver'],
-             explanation='PROVED (engine P, all inputs): BinaryCarver._association_measure computes V = sqrt(chi2/n) and T = V/(rows-1)^(1/4) from the (opaque) scipy chi2; the candidate enumerators are sound and complete w.r.t. the recursive spec InPart (every and only order-contiguous '
+ 'C01': dict(level='other', P=[ENUM, ('contracts.measures', ['BinaryCarver._association_measure']), VIAB], R=['rtc.c01_carver'],
+             explanation='PROVED (engine P, all inputs): BaseCarver._test_viability returns the FIRST candidate of the (association-sorted) list that passes the viability tests and None iff none does, for a list of any length (loop with break under an inductive invariant; the pandas pieces are uninterpreted library symbols, so the proof pins down which computations decide viability and how the loop uses them); BinaryCarver._association_measure computes V = sqrt(chi2/n) and T = V/(rows-1)^(1/4) from the (opaque) scipy chi2; the candidate enumerators are sound and complete w.r.t. the recursive spec InPart (every and only order-contiguous '
                          'partitions into 2..max_n_mod groups are generated), NaN placements are exactly FlatMap(Block, C). BOUNDED (engine R, not counted as proved): the real '
                          'BinaryCarver/ContinuousCarver.fit against a brute-force oracle written from the property text (kept iff a viable candidate exists; fitted grouping is viable, '
                          'a union of base modalities, and attains the maximal measure over all viable candidates; two-stage NaN search) on count-table frames with exact ties / '
                          'boundary frequencies and random frames.',
              trusted=['scipy chi2_contingency / kruskal as the statistic of the oracle', 'Discretizer (same parameters) defines the base modalities, as the property states']),
- 'C02': dict(level='other', P=[ENUM, TRANSFORM], S=['contracts.forwarding:carver_defaults_obligations'], R=['rtc.c01_carver'],
-             explanation='PROVED (engine P): every candidate ever generated has between 2 and max_n_mod groups, the NaN-alone placement only when len < max_n_mod. '
+ 'C02': dict(level='other', P=[ENUM, TRANSFORM, VIAB], S=['contracts.forwarding:carver_defaults_obligations'], R=['rtc.c01_carver'],
+             explanation='PROVED (engine P): every candidate ever generated has between 2 and max_n_mod groups, the NaN-alone placement only when len < max_n_mod; the combination _test_viability hands back satisfies all(frequency >= min_freq_mod) and pairwise-distinct consecutive rates on train and, with a dev sample, the same rate ranking, all(frequency >= min_freq_mod) and distinct consecutive rates on dev (as verdicts of the uninterpreted pandas computations). '
                          'BOUNDED (engine R): post-conditions of fit+transform on train and dev (label count, per-label frequency >= min_freq_mod, missing handling, same labels and '
                          'same rate ranking on dev) on the same frames as C01.',
              trusted=[]),
